@@ -45,7 +45,7 @@ type vfC01Tamper struct {
 }
 
 var vfC01ZoneEdits = []string{"empty", "corrupt-sigs", "strip-sigs", "strip-dnssec", "expired", "not-yet-valid", "foreign-signer", "rogue-key", "rogue-key"}
-var vfC01KindEdits = []string{"wildcard-replay", "wildcard-replay", "empty", "flip-rdata", "corrupt-sigs", "strip-sigs", "expired", "drop-denial", "flip-rcode", "strip-ds", "swap-ds", "inject-foreign", "inject-foreign", "inject-foreign", "replace-unsigned", "foreign-signer", "sibling-denial"}
+var vfC01KindEdits = []string{"wildcard-replay", "wildcard-replay", "empty", "flip-rdata", "flip-one", "flip-one", "ent-signer", "corrupt-sigs", "strip-sigs", "expired", "drop-denial", "flip-rcode", "strip-ds", "swap-ds", "inject-foreign", "inject-foreign", "inject-foreign", "replace-unsigned", "foreign-signer", "sibling-denial"}
 
 func (tm *vfC01Tamper) decisive() bool { return tm != nil && tm.Kind == "" }
 
@@ -152,7 +152,79 @@ func vfC01Apply(w *vfworld.World, tm *vfC01Tamper, resp *dns.Msg, info vfworld.I
 			*sec = append(out, rest...)
 		}
 	}
+	alter := func(rr dns.RR) bool {
+		switch v := rr.(type) {
+		case *dns.A:
+			v.A = net.IPv4(6, 6, 6, 11).To4()
+		case *dns.AAAA:
+			v.AAAA = net.ParseIP("2001:db8:bad::11")
+		case *dns.TXT:
+			v.Txt = []string{"altered"}
+		case *dns.MX:
+			v.Mx = "altered.org."
+		case *dns.CNAME:
+			v.Target = "t.org."
+		case *dns.NSEC:
+			v.NextDomain = "zzzzzz." + v.NextDomain
+			v.TypeBitMap = []uint16{dns.TypeRRSIG, dns.TypeNSEC}
+		case *dns.NSEC3:
+			v.TypeBitMap = []uint16{dns.TypeRRSIG}
+			if len(v.NextDomain) > 2 {
+				v.NextDomain = "vv" + v.NextDomain[2:]
+			}
+		case *dns.SOA:
+			v.Minttl, v.Serial = 86400, v.Serial+7
+		default:
+			return false
+		}
+		return true
+	}
 	switch tm.Edit {
+	case "flip-one":
+		// one RRset of several is altered and keeps its (now wrong) signature; the others stay intact. Which one:
+		// by the order (owner, type) a validator might walk them in - mostly not the first
+		type ref struct {
+			key string
+			rrs []dns.RR
+		}
+		var sets []ref
+		for _, sec := range [][]dns.RR{resp.Answer, resp.Ns} {
+			groups, _, _ := vfC01Groups(sec)
+			for _, g := range groups {
+				if z != nil && vfmodel.IsSubdomain(g[0].Header().Name, z.Apex) && !(g[0].Header().Rrtype == dns.TypeNS) {
+					sets = append(sets, ref{strings.ToLower(g[0].Header().Name) + fmt.Sprintf("/%05d", g[0].Header().Rrtype), g})
+				}
+			}
+		}
+		if len(sets) < 2 {
+			break
+		}
+		sort.Slice(sets, func(i, j int) bool { return sets[i].key < sets[j].key })
+		pick := len(sets) - 1 - tm.Variant%len(sets) // variant 0: the last one
+		for _, rr := range sets[pick].rrs {
+			if alter(rr) {
+				changed = true
+			}
+		}
+	case "ent-signer":
+		// altered data under signatures that name an ancestor of the owner inside the zone which is no zone cut (and so
+		// validly has no DS): the claimed signer cannot vouch for anything, and the real zone is signed
+		if z == nil || !z.Signed || len(resp.Answer) == 0 {
+			break
+		}
+		owner := strings.ToLower(resp.Answer[0].Header().Name)
+		ls := dns.SplitDomainName(owner)
+		if len(ls) < len(dns.SplitDomainName(z.Apex))+2 {
+			break
+		}
+		claimed := strings.Join(ls[1:], ".") + "."
+		for _, rr := range resp.Answer {
+			if rr.Header().Rrtype != dns.TypeRRSIG {
+				alter(rr)
+			}
+		}
+		mapSigs(func(s *dns.RRSIG) { s.SignerName = claimed })
+		changed = true
 	case "rogue-key":
 		// the attacker adds a key of their own to the zone's DNSKEY RRset, signs that RRset with it, and signs altered
 		// data with it: no DS vouches for the key, and the DNSKEY RRset carries no signature by a key a DS vouches for
